@@ -6,15 +6,19 @@
 EXTENDS LdiffMC
 
 AllConts == [Ids -> 0..MaxHead]
-\* all fresh indexes, tabulated once (constant level, evaluated at start-up)
-FreshTab == TLCEval([t \in THs |-> TLCEval([c \in AllConts |-> FreshT(c, t)])])
+\* all fresh indexes for every tuning, tabulated once (constant level, evaluated at start-up)
+FreshTab == TLCEval([l \in LGs |-> TLCEval([t \in THs |-> TLCEval([c \in AllConts |-> FreshT(c, t, l)])])])
 
+\* every requester tuning x every requester contents, against every reachable remote (tuned on its own)
 DiffExactAllRequesters ==
-    \A r \in Peers : idx[r].ovf \/ \A c \in AllConts : DiffGood(FreshTab[th][c], idx[r])
+    \A r \in Peers : idx[r].ovf \/ \A l \in LGs, t \in THs : \A c \in AllConts : DiffGood(FreshTab[l][t][c], idx[r])
 
-\* C08 towards the protocol: the advertised top hash identifies the contents (no two contents share
-\* a top-hash term - in particular the "Nil child writes nothing" concatenation creates no collision)
+\* C08 towards the protocol: the advertised top hash identifies the contents - among equally tuned
+\* indexes exactly (no two contents share a top-hash term; in particular the "Nil child writes nothing"
+\* concatenation creates no collision), and an index tuned differently can only advertise the same
+\* hash if it holds the same contents
 HashIdentifiesContents ==
     \A p \in Peers \ Legacy : \A c \in AllConts :
-        (c = idx[p].cont) <=> (FreshTab[th][c].hsh[<<>>] = idx[p].hsh[<<>>])
+        /\ (c = idx[p].cont) <=> (FreshTab[idx[p].lg][idx[p].th][c].hsh[<<>>] = idx[p].hsh[<<>>])
+        /\ \A l \in LGs, t \in THs : (FreshTab[l][t][c].hsh[<<>>] = idx[p].hsh[<<>>]) => (c = idx[p].cont)
 =============================================================================
